@@ -611,7 +611,7 @@ pub fn tree(cfg: GenCfg) -> BoxedStrategy<Spec> {
   l.prop_recursive(cfg.depth, 16, cfg.max_children as u32, move |inner| {
     let mut alts: Vec<(u32, BoxedStrategy<Spec>)> = vec![(
       4,
-      (0u8..3u8, vec(inner.clone(), 0..=cfg.max_children))
+      (0u8..4u8, vec(inner.clone(), 0..=cfg.max_children))
         .prop_map(|(how, children)| Spec::Concat { how, children })
         .boxed(),
     )];
